@@ -123,6 +123,14 @@ CHECKS = {
         note="trusted: Evaluator::call_stack_count()/get_total_tick_count() as measuring devices; the documented check interval of 1000",
         technique="runtime limit-model monitor over enumerated (shape, limit, depth/budget/position) scenarios",
         ref="DESIGN.md section 3 C15"),
+    "C16": dict(
+        engine="svh",
+        text="~520 type expressions (quick; all depth<=2 plus depth 3 in thorough) over Any, Never, None, the basic types, list/set/dict/tuple forms, fixed-arity tuples, unions of 2 and 3, Callable, Iterable, two records and two enums of equal shape, struct, range "
+             "x 70 values (every builtin type, empty/heterogeneous/nested containers, records/enums of both declarations, callables of every kind) are checked on 5 paths (isinstance, parameter annotation, return annotation, annotated local assignment, host TypeCompiled::matches), "
+             "each unfrozen and with types, values and checking functions exported from a frozen module: all 10 answers must agree, and - where docs/types.md decides - equal an independent membership oracle.",
+        note="trusted: the membership oracle member() in pylib/c16.py (float-vs-int, Callable-vs-enum-type, Iterable-vs-str/struct are left to agreement only); one open known finding (documented tuple[T1, T2] spelling) keyed on its signature",
+        technique="runtime agreement monitor across check paths + independent reference oracle over an enumerated type x value space",
+        ref="DESIGN.md section 3 C16"),
     "C18": dict(
         engine="svh",
         text="Generated programs with marker statements run uninstrumented, under (a sample of, thorough: all) 13 ProfileModes, with a logging statement hook, and under the debug adapter with breakpoints on all / none / a random subset of marker lines "
